@@ -912,9 +912,12 @@ func (e *Enc) discoverWrites(fr *Frame, li *LoopInfo, guard T, st *State) map[st
 	e.writeRefs, e.discNames = map[string]map[string]bool{}, map[string]bool{}
 	sub := &Frame{fn: fr.fn, vals: map[ssa.Value]Val{}, edges: map[[2]int]*Edge{}, guards: map[int]T{}, loops: fr.loops,
 		contract: fr.contract, depth: fr.depth, path: fr.path, bind: fr.bind, region: li.blocks, lazy: true, entrySt: fr.entrySt,
-		endStates: map[int]*State{}, lets: fr.lets, callOrd: map[string]int{}}
+		endStates: map[int]*State{}, lets: map[string]Val{}, callOrd: map[string]int{}}
 	for k, v := range fr.vals {
 		sub.vals[k] = v
+	}
+	for k, v := range fr.lets {
+		sub.lets[k] = v
 	}
 	func() {
 		defer func() {
@@ -922,7 +925,10 @@ func (e *Enc) discoverWrites(fr *Frame, li *LoopInfo, guard T, st *State) map[st
 				if _, ok := r.(stopEncoding); ok {
 					return
 				}
-				if _, ok := r.(unsupported); ok {
+				if u, ok := r.(unsupported); ok {
+					if os.Getenv("GOVC_APPROX") != "" {
+						fmt.Fprintf(os.Stderr, "discovery of loop %d in %s: %v\n", li.ord, e.fnName, u)
+					}
 					e.writes["*"] = true
 					return
 				}
